@@ -30,8 +30,8 @@ RULE = ("bounded program zoo (all reachable bars of a real Bar over a content x 
 ASSUMPTIONS = [
     "note-on / note-off are told apart by status byte (0x9n / 0x8n); a note written with velocity 0 is expected as a "
     "0x9n event with velocity 0, exactly as the statement's 'note-on ... with the note's velocity' reads",
-    "round(288/value) at an exact tie (value 64 = 4.5 ticks) may be round-half-even or round-half-up; a track is "
-    "accepted when it matches the timeline under either convention",
+    "round(288/value) is the interpreter's round(): at an exact tie (value 64 = 4.5 ticks) it rounds half to even (4 ticks); "
+    "an earlier, weaker reading that also accepted round-half-up was dropped (see DESIGN.md section 10)",
     "the tick of a time/key signature is only required to lie between the end of the last sounding entry before the "
     "bar and the start of the next sounding entry (the statement does not fix where inside a rest it is emitted); "
     "their per-bar order and values are exact",
@@ -63,6 +63,8 @@ def timelines_for(play, values):
         tl = TL.Timeline(conv)
         play(tl)
         out.append(tl)
+    if any(TL.is_tie(v) for v in values):
+        engine.S.count("tie_tracks_checked")
     return out
 
 
@@ -105,8 +107,6 @@ def check_bytes(site, data, per_track_timelines, bpm):
             S.count("bars_checked", len(tl.bars))
             S.count("instrument_changes_checked", len(tl.instruments))
             S.count("rest_entries_checked", tl.rest_entries)
-            if any(t.convention == "up" for t in tls):
-                S.count("tie_tracks_checked")
     return f
 
 
@@ -271,7 +271,7 @@ def bfs_track_recipe(j):
 class WriterState(object):
     def __init__(self, bpm):
         self.track = MidiTrack(bpm)
-        self.models = [TL.Timeline("even"), TL.Timeline("up")]
+        self.models = [TL.Timeline("even")]
         self.tie = False
 
 
@@ -386,6 +386,18 @@ def gen_tracks(shard):
                 for repeat in (0, 1):
                     yield {"comp": {"tracks": [{"name": "Tr", "instrument": instr, "bars": bars}]},
                            "bpm": 120, "repeat": repeat, "apis": ["track"] if repeat else ["track", "composition"]}
+    # one Bar object standing at several places of a track (a riff, a bar of rest), and bars whose notes sound on
+    # different channels (the instrument belongs on the channel of the track's first note)
+    for p1 in range(n):
+        two = [Z.bar_recipe(Z.PATTERNS[p0], key="G", meter=(4, 4)), Z.bar_recipe(Z.PATTERNS[p1], key="G", meter=(4, 4))]
+        for order in ([0, 0], [0, 1, 0], [0, 1, 1], [1, 0, 0], [0, 0, 1, 1]):
+            for instr in (None, ["midi", 13]):
+                yield {"comp": {"tracks": [{"name": "Sh", "instrument": instr, "bars": two, "order": order}]},
+                       "bpm": 120, "repeat": 0, "apis": ["track", "composition"]}
+        chans = [Z.bar_recipe(Z.PATTERNS[p0], key="C", meter=(4, 4), channel=3), Z.bar_recipe(Z.PATTERNS[p1], key="C", meter=(4, 4), channel=5),
+                 Z.bar_recipe(Z.PATTERNS[p0], key="C", meter=(4, 4), channel=0)]
+        yield {"comp": {"tracks": [{"name": "Ch", "instrument": ["midi", 40], "bars": chans}]},
+               "bpm": 120, "repeat": 0, "apis": ["track", "composition"]}
     # one track passing through keys that share a signature (relative keys) or a tonic (parallel keys)
     for keyseq in KEY_SEQUENCES:
         bars = [Z.bar_recipe(Z.PATTERNS[p0], key=k, meter=(4, 4)) for k in keyseq]
